@@ -169,7 +169,7 @@ class Lidar:
                     else:
                         sign, mag = (1 if v < 0 else 0), abs(v) * scale
                     buf[off + 3 * i] = sign
-                    buf[off + 3 * i + 1:off + 3 * i + 3] = int(mag).to_bytes(2, 'big')
+                    buf[off + 3 * i + 1:off + 3 * i + 3] = min(int(mag), 65535).to_bytes(2, 'big')
         return bytes(buf)
 
 
